@@ -153,10 +153,10 @@ def registry_inputs(ck):
         for l in ends_l:
             for j, r in enumerate(ends_r):
                 # quick: every right end for the first 9 left ends of plain double bonds and allenes, a rotating third otherwise
-                if ck.tier == 'quick' and not ((k < 2 and ends_l.index(l) < 9) or (j + ends_l.index(l) + k) % 3 == 0):
+                if ck.tier == 'quick' and not ((k < 2 and ends_l.index(l) < 6) or (j + ends_l.index(l) + k) % 4 == 0):
                     continue
                 out.append((f'chain{k + 2}', f'{l}={"C=" * k}{r}'))
-    npool = 120 if ck.tier == 'quick' else 1200
+    npool = 80 if ck.tier == 'quick' else 1200
     for smi in corpus.sample(corpus.lipo(), npool, ck.seed, 'c12reg'):
         out.append(('corpus', smi))
     mols = []
@@ -390,7 +390,7 @@ def marks_inputs(ck):
            'CC(F)=[C@]=C(Cl)Br', 'CC(F)=[C@@]=C(Cl)Br', 'FC=[C@@]=CCl', '[H]C(F)=[C@]=C([H])Cl', '[H]C(F)=[C@@]=C(Cl)[H]', 'CC(F)=[C@]=C([H])Cl',
            'C(F)(C)=[C@]=C(Cl)Br', 'C(=[C@]=C(Cl)Br)(F)C', 'FC(Cl)=C=[C@]=C=C(Br)I', 'C[C@H](N)/C=C/[C@@H](O)C',
            'N1[C@H](C)CC1', 'C[S@](=O)c1ccccc1', 'C[C@H]1CC[C@@H](/C=C/F)CC1']
-    out += corpus.sample(corpus.stereo_smiles(), 100 if ck.tier == 'quick' else 1000, ck.seed, 'c12marks')
+    out += corpus.sample(corpus.stereo_smiles(), 60 if ck.tier == 'quick' else 1000, ck.seed, 'c12marks')
     return out
 
 
